@@ -604,8 +604,12 @@ pub fn c10_process_world(ctx: &Ctx, scn: &crate::props::c10::Scn, sc: &Scale, ex
                     return Some(Violation::new("process_dependence", "json", format!("--json of [{}] vs [{}]: {}", ref_name, name, m)));
                 }
             }
+            (None, None) => {
+                // nothing was evaluated (a components file without components): no result document on either side
+                ex.count("process_runs_without_result", 1);
+            }
             _ => {
-                return Some(Violation::new("process_dependence", "json-missing", format!("--json output missing or invalid for [{}] or [{}]", ref_name, name)));
+                return Some(Violation::new("process_dependence", "json-missing", format!("--json output present and valid for only one of [{}] and [{}]", ref_name, name)));
             }
         }
     }
